@@ -23,7 +23,9 @@ EXPLANATION = (
     "the estimator, Estimate, GetDescriptors, the matcher and the unit "
     "evaluator store nothing. R15.5 ownership: decomposition and matching "
     "edit only copies made in the call; Update stores copies; loads build "
-    "fresh containers.")
+    "fresh containers. R15.6: an attribute the class changes in place (+=, "
+    "append, update, item store) is stored by the constructor as a "
+    "container of its own, never as the caller's object.")
 NOT_DECIDED = "state inside RDKit, numpy, scipy, pmutt and PyYAML"
 ASSUMPTIONS = ["default argument objects are created once per function "
                "definition (CPython)",
